@@ -20,6 +20,10 @@ import (
 type caseC03 struct {
 	Src      gen.Src `json:"src"`
 	DictCaps []int   `json:"dictcaps"`
+	// Prior: an earlier reader instance of the same configuration in the same
+	// process (see priorDecode) before each decode; "" = none
+	Prior   string `json:"prior,omitempty"`
+	PriorAt int    `json:"prior_at,omitempty"`
 }
 
 func drawC03(t *rapid.T) caseC03 {
@@ -32,6 +36,10 @@ func drawC03(t *rapid.T) caseC03 {
 	c.DictCaps = []int{4096, 0}
 	if rapid.Bool().Draw(t, "moredict") {
 		c.DictCaps = append(c.DictCaps, rapid.SampledFrom([]int{4097, 8191, 8192, 8193, 65536, 1 << 20}).Draw(t, "dictcap"))
+	}
+	if rapid.IntRange(0, 2).Draw(t, "hasprior") == 0 {
+		c.Prior = rapid.SampledFrom([]string{"trunc", "trunc", "flip", "abandon"}).Draw(t, "prior")
+		c.PriorAt = rapid.IntRange(0, 999).Draw(t, "priorat")
 	}
 	return c
 }
@@ -75,6 +83,9 @@ func checkC03(c caseC03, rec *ev.Rec) *ev.Failure {
 		}
 	}
 	for _, dc := range c.DictCaps {
+		if c.Prior != "" {
+			priorDecode("xz", b.Stream, dc, c.Prior, c.PriorAt)
+		}
 		r, err := xz.ReaderConfig{DictCap: dc}.NewReader(bytes.NewReader(b.Stream))
 		if err != nil {
 			return ev.Fail(fmt.Sprintf("NewReader(DictCap %d) rejects a valid %s stream: %v", dc, c.Src.Origin, err), "stage", "open", "origin", c.Src.Origin, "err", err.Error())
@@ -90,6 +101,9 @@ func checkC03(c caseC03, rec *ev.Rec) *ev.Failure {
 		}
 	}
 	rec.Class("origin=" + c.Src.Origin)
+	if c.Prior != "" {
+		rec.Class("after_earlier_reader=" + c.Prior)
+	}
 	var st ref.Stats
 	nchunks := 0
 	for _, s := range res.Streams {
@@ -130,7 +144,7 @@ func checkC03(c caseC03, rec *ev.Rec) *ev.Failure {
 
 func TestC03(t *testing.T) {
 	rec := ev.New("C03", "exploration")
-	rec.Rule = "valid LZMA2-only .xz streams from (a) a specification-driven generator: operation lists (literal, match, rep0-3, short rep; lengths biased to 2/273/codec boundaries; distances biased to 1, reps, the window edge), all seven chunk kinds in legal order incl. mid-stream state/property/dictionary resets and raw chunks, container layouts (4 check types, size fields, extra header padding, empty and zero-block streams), (b) liblzma with drawn options (presets, mf hc3..bt4, modes, nice_len, flushes, MT encoder), (c) a frozen xz-utils corpus; x ReaderConfig.DictCap in {4096, default, drawn}; oracle = constructed plaintext (= reference decoder = liblzma); non-trivial = non-empty content and at least one match/rep class, >= 2 chunks or a layout feature; distinct = hash of the stream bytes"
+	rec.Rule = "valid LZMA2-only .xz streams from (a) a specification-driven generator: operation lists (literal, match, rep0-3, short rep; lengths biased to 2/273/codec boundaries; distances biased to 1, reps, the window edge), all seven chunk kinds in legal order incl. mid-stream state/property/dictionary resets and raw chunks, container layouts (4 check types, size fields, extra header padding, empty and zero-block streams), (b) liblzma with drawn options (presets, mf hc3..bt4, modes, nice_len, flushes, MT encoder), (c) a frozen xz-utils corpus; x ReaderConfig.DictCap in {4096, default, drawn}; in a third of the cases each decode follows an earlier reader instance of the same configuration in the same process that failed on a truncated or changed copy or was abandoned after one Read; oracle = constructed plaintext (= reference decoder = liblzma); non-trivial = non-empty content and at least one match/rep class, >= 2 chunks or a layout feature; distinct = hash of the stream bytes"
 	rec.Assumptions = []string{"declared dictionary <= 1 MiB (codes <= 8) in generated streams of the quick tier; the thorough tier adds codes up to 28 (64 MiB)", "a disagreement between reference decoder, liblzma and the constructed plaintext is a harness error (inconclusive), never reported against the library"}
 	drive(t, rec, drawC03, checkC03)
 }
